@@ -24,6 +24,13 @@ fn usage() -> i32 {
 fn main() {
     let args: Vec<String> = std::env::args().skip(1).collect();
     let code = real_main(&args);
+    // whatever this process put under its own scratch directory is of no use to anyone else
+    for base in ["/dev/shm".to_string(), std::env::temp_dir().to_string_lossy().to_string()] {
+        let d = std::path::Path::new(&base).join(format!("verif-{}", std::process::id()));
+        if d.is_dir() {
+            let _ = std::fs::remove_dir_all(d);
+        }
+    }
     std::process::exit(code);
 }
 
